@@ -27,7 +27,22 @@ pub fn run(seed: u64, ntraces: usize) {
         let mut cur_collector = collector.clone();
         let mut steps: Vec<Value> = vec![];
         let nops = 8 + r.below(14) as usize;
-        for _ in 0..nops {
+        for opi in 0..nops {
+            // directed (sixth operation of every trace): the collector lists the SAME tokens twice in one collectFees call, every entry payable: each entry is paid
+            if opi == 6 && cur_collector != VMAddress::zero() {
+                let acc = w.r.blockchain_mock.state.accounts.get(&gs).unwrap();
+                let b0: u64 = acc.esdt.get_esdt_balance(&toks[0], 0).to_string().parse().unwrap(); let be: u64 = acc.egld_balance.to_string().parse().unwrap();
+                if b0 >= 4 && be >= 4 {
+                    let tokens = vec![toks[0].clone(), b"EGLD".to_vec(), toks[0].clone(), b"EGLD".to_vec()]; let amounts = vec![b0 / 4 + 1, be / 4, b0 / 4, be / 4 + 1];
+                    let receiver = users[1].clone(); let caller = cur_collector.clone();
+                    let mut args = vec![receiver.to_vec(), big(4)]; for tk in &tokens { args.push(tk.clone()); } args.push(big(4)); for a in &amounts { args.push(big(*a)); }
+                    let st = w.tx(&caller, &gs, "collectFees", args, &bn(0), &[]);
+                    let mut opj = json!({"op": "collect", "receiver": hx(receiver.as_bytes()), "tokens": tokens.iter().map(|t| hx(t)).collect::<Vec<_>>(),
+                        "amounts": amounts.iter().map(|a| a.to_string()).collect::<Vec<_>>(), "caller_": hx(caller.as_bytes())});
+                    opj["caller"] = json!(hx(caller.as_bytes())); opj["pay"] = json!({"egld": "0", "esdt": []});
+                    steps.push(json!({"op": opj, "res": st.json}));
+                }
+            }
             let anyone = r.pick(&all).clone();
             // payment shapes: none, EGLD, one ESDT, two ESDTs, nonce > 0, zero amount
             let gen_pay = |r: &mut Rng, want_native: bool| -> (u64, Vec<(Vec<u8>, u64, BigUint)>) {
